@@ -41,8 +41,9 @@ package redis
 
 // ---- cluster batches: replies and redirects stay with their own command (C19) ---------------
 // The node connection is an abstract FIFO: the k-th reply received answers the k-th request sent.
-//   cSent  requests written to the connection so far
-//   cRecv  replies read from the connection so far
+//   cSent  requests written to any connection so far (all nodes)
+//   cRecv  replies read from any connection so far
+//   bSent / bRecv  the same, counted on the node connection of the batch being executed
 //@ func redisNode.getConn
 //@   trusted abstract connection pool
 //@   ensures conn: result1 == nil ==> result0 != nil
@@ -50,6 +51,7 @@ package redis
 //@   trusted abstract connection pool
 //@ func redisConn.send
 //@   trusted abstract connection: appends one request
+//@   ghost var cSent mathint
 //@   modifies cSent
 //@   ensures counted: cSent == old(cSent) + 1
 //@ func redisConn.flush
@@ -58,6 +60,7 @@ package redis
 //@   trusted abstract connection
 //@ func redisConn.receive
 //@   trusted abstract connection: the next reply, in request order
+//@   ghost var cRecv mathint
 //@   modifies cRecv
 //@   ensures counted: cRecv == old(cRecv) + 1
 //@ func util.OpenCircuitExec.Do
@@ -163,16 +166,18 @@ func SpecErrorValued(reply interface{}) bool { return false }
 //@   arith int
 //@   properties C19
 //@   opaque SpecRedirectClass
-//@   ghost var cSent mathint = 0
-//@   ghost var cRecv mathint = 0
+//@   ghost var bSent mathint = 0
+//@   ghost var bRecv mathint = 0
 //@   requires nonnil: bat != nil && batch != nil && batch.node != nil && bat.cluster != nil
-//@   modifies heap, cSent, cRecv
-//@   assert at call send: requests_written_in_batch_order: 0 <= cSent && cSent < len(batch.cmds) && cmd == batch.cmds[cSent].cmd && args == batch.cmds[cSent].args
-//@   assert at call handleReply: reply_handled_with_its_own_command: 1 <= cRecv && cRecv <= len(batch.cmds) && cmd == batch.cmds[cRecv - 1].cmd && args == batch.cmds[cRecv - 1].args
+//@   modifies heap, cSent, cRecv, bSent, bRecv
+//@   set bSent = bSent + 1 after call send
+//@   set bRecv = bRecv + 1 after call receive
+//@   assert at call send: requests_written_in_batch_order: 0 <= bSent && bSent < len(batch.cmds) && cmd == batch.cmds[bSent].cmd && args == batch.cmds[bSent].args
+//@   assert at call handleReply: reply_handled_with_its_own_command: 1 <= bRecv && bRecv <= len(batch.cmds) && cmd == batch.cmds[bRecv - 1].cmd && args == batch.cmds[bRecv - 1].args
 //@   loop 1:
-//@     invariant sent_prefix: 0 - 1 <= rangeindex#1 && rangeindex#1 < len(batch.cmds) && (exec.err == nil ==> cSent == rangeindex#1 + 1) && cRecv == 0
+//@     invariant sent_prefix: 0 - 1 <= rangeindex#1 && rangeindex#1 < len(batch.cmds) && (exec.err == nil ==> bSent == rangeindex#1 + 1) && bRecv == 0
 //@   loop 2:
-//@     invariant received_prefix: 0 - 1 <= rangeindex#2 && rangeindex#2 < len(batch.cmds) && cRecv == rangeindex#2 + 1 && cSent == len(batch.cmds)
+//@     invariant received_prefix: 0 - 1 <= rangeindex#2 && rangeindex#2 < len(batch.cmds) && bRecv == rangeindex#2 + 1 && bSent == len(batch.cmds)
 
 // ---- a key is routed to the node the slot table names for the key's Redis slot (C19) --------
 //@ func strconv.FormatUint(i, base) (s)
